@@ -18,6 +18,7 @@ META = {
     "not_decided": "that the produced partition equals the specification for every input (group order, contents)",
     "assumptions": [],
 }
+META["explanation"] += " " + "FLOW-key is decided by taint flow: a value carrying the group's name (the key parameters or locals computed from them alone) must be compared or looked up against something that varies per element inside the element loop. (HC-confirm, shared with C13) a match by stored hash is confirmed by comparing the key."
 
 
 
@@ -166,16 +167,43 @@ def run(ctx):
     rl = m.fn("Qentem::TemplateCore::renderLoop")
     ctx.note_fn(rl)
     gb = astq.calls(rl, "GroupBy")
-    ok = len(gb) == 1 and [rl.text(a) for a in rl.call_args(gb[0])] == ["grouped_set", "((content_ + tag.Offset) + tag.GroupOffset)", "tag.GroupLength"]
-    r.ob(rl.q, "GroupBy arguments", ok, "GroupBy(%s)" % (", ".join(rl.text(a) for a in rl.call_args(gb[0])) if gb else ""), rl.loc(gb[0]) if gb else "")
+
+    def addends(fn, nid):
+        n = fn.nodes[fn.strip_casts(nid)]
+        if n["k"] == "BinaryOperator" and n["op"] == "+":
+            return addends(fn, n["ch"][0]) + addends(fn, n["ch"][1])
+        return [fn.text(fn.strip_casts(nid))]
+
+    def difference(fn, nid):
+        n = fn.nodes[fn.strip_casts(nid)]
+        while n["k"] in ("CXXFunctionalCastExpr", "CXXUnresolvedConstructExpr", "ParenExpr", "CStyleCastExpr", "CXXStaticCastExpr", "InitListExpr") and len(n.get("ch", [])) == 1:
+            n = fn.nodes[fn.strip_casts(n["ch"][0])]
+        if n["k"] == "BinaryOperator" and n["op"] == "-":
+            return fn.text(fn.strip_casts(n["ch"][0])), fn.text(fn.strip_casts(n["ch"][1]))
+        return None
+    wc = None
+    ok = False
+    shown = ""
+    if len(gb) == 1:
+        ga = rl.call_args(gb[0])
+        shown = ", ".join(rl.text(a_) for a_ in ga)
+        if len(ga) == 3:
+            wc = rl.nodes[rl.strip(ga[0])].get("n")
+            ok = sorted(addends(rl, ga[1])) == sorted(["this.content_", "tag.Offset", "tag.GroupOffset"]) or sorted(addends(rl, ga[1])) == sorted(["content_", "tag.Offset", "tag.GroupOffset"])
+            ok = ok and rl.text(rl.strip_casts(ga[2])) == "tag.GroupLength"
+    r.ob(rl.q, "GroupBy arguments", ok, "GroupBy(%s): the key is read at content_ + tag.Offset + tag.GroupOffset for tag.GroupLength units" % shown, rl.loc(gb[0]) if gb else "")
     pl = m.fn("Qentem::TemplateCore::parseLoopAttributes")
-    rec = [(pl.text(pl.nodes[x]["ch"][0]), pl.text(pl.nodes[x]["ch"][1])) for x in astq.nodes_of(pl, "BinaryOperator") if pl.nodes[x]["op"] == "=" and "Group" in pl.text(pl.nodes[x]["ch"][0])]
-    want = {("tag.GroupOffset", "fcast<Qentem::SizeT8>((att_offset - tag.Offset))"), ("tag.GroupLength", "fcast<Qentem::SizeT8>((offset - att_offset))")}
-    r.ob(pl.q, "GroupOffset/GroupLength", set(rec) == want, "recorded as %s (offset relative to tag.Offset, length up to the closing quote)" % sorted(rec), "Include/Template.hpp:%d" % pl.line)
-    decl = [d for s_ in astq.nodes_of(rl, "DeclStmt") for d in rl.nodes[s_]["decls"] if d.get("n") == "grouped_set"]
+    rec = {}
+    for x in astq.nodes_of(pl, "BinaryOperator"):
+        if pl.nodes[x]["op"] == "=" and pl.text(pl.nodes[x]["ch"][0]) in ("tag.GroupOffset", "tag.GroupLength"):
+            rec[pl.text(pl.nodes[x]["ch"][0])] = difference(pl, pl.nodes[x]["ch"][1])
+    go, gl = rec.get("tag.GroupOffset"), rec.get("tag.GroupLength")
+    ok = bool(go and gl) and go[1] == "tag.Offset" and gl[1] == go[0]
+    r.ob(pl.q, "GroupOffset/GroupLength", ok, "recorded as GroupOffset = %s, GroupLength = %s (offset of the attribute value relative to tag.Offset; length from that same position)" % (go, gl), "Include/Template.hpp:%d" % pl.line)
+    decl = [d for s_ in astq.nodes_of(rl, "DeclStmt") for d in rl.nodes[s_]["decls"] if wc and d.get("n") == wc]
     sorts = astq.calls(rl, "Sort")
-    ok = bool(decl) and not decl[0].get("ref") and decl[0].get("tk") != "ptr" and all(rl.text(rl.call_receiver(c)) == "grouped_set" for c in sorts)
-    r.ob(rl.q, "private working copy", ok, "grouped_set is a by-value local and the only receiver of Sort()", "Include/Template.hpp:%d" % rl.line)
+    ok = bool(decl) and not decl[0].get("ref") and decl[0].get("tk") != "ptr" and not decl[0].get("static") and all(rl.text(rl.call_receiver(c)) == wc for c in sorts)
+    r.ob(rl.q, "private working copy", ok, "`%s` (the object GroupBy fills) is a by-value local and the only receiver of Sort()" % wc, "Include/Template.hpp:%d" % rl.line)
     rules.append(r)
     from rules.C13 import rule_hash_confirm
     rules.append(rule_hash_confirm(ctx, m))
